@@ -6,6 +6,7 @@ import SciVerif.Tie.ProcSem
 import SciVerif.Tie.RunSem
 import SciVerif.Model.Chan
 import SciVerif.Tie.C12Sem
+import SciVerif.Model.Net
 /-!
 Line-protocol driver (Tie B): one request per line on stdin (tab separated), one response line.
 It runs the *executable models*, instantiated with the semantics records Tie A regenerated from
@@ -258,6 +259,31 @@ partial def explore (B : Nat) (streams : List (List Nat)) (st : ChSt) (seen : Li
       | none => explore B streams s' acc.1) (seen, none)
 end ChanSearch
 
+namespace NetRun
+open SciVerif.Net
+
+/-- greedy maximal run of the network counting model (support code for the correspondence check) -/
+def maximal {n : Nat} (net : Net n) : Nat → NSt n → Nat → NSt n × Nat
+  | 0, s, k => (s, k)
+  | fuel + 1, s, k =>
+    match (allLbls n).findSome? (fun l => step net s l) with
+    | none => (s, k)
+    | some s' => maximal net fuel s' (k + 1)
+
+def mkNet (n : Nat) (ins : List (List Nat)) (src : List Nat) (B : Nat) : Net n :=
+  { ins := fun v => ((ins.getD v.val []).filterMap fun u => if h : u < n then some ⟨u, h⟩ else none),
+    src := fun v => src.getD v.val 0, B := B }
+
+def final (n : Nat) (ins : List (List Nat)) (src : List Nat) (B : Nat) : String :=
+  let net := mkNet n ins src B
+  let bound := n * (2 * (src.foldl max 0) + 1) + 1
+  let r := maximal net bound (init n) 0
+  let s := r.1
+  let vs := List.finRange n
+  s!"term={",".intercalate (vs.map fun v => if s.term v then "1" else "0")};c={",".intercalate (vs.map fun v => toString (s.c v))};f={",".intercalate (vs.map fun v => toString (s.f v))};steps={r.2};stuck={stuckB net s}"
+
+end NetRun
+
 def handle (line : String) : String :=
   match line.splitOn "\t" with
   | ["sem"] => semLine
@@ -387,6 +413,9 @@ def handle (line : String) : String :=
     | .started gs d b =>
       let g := (gs.toArray.qsort (· < ·)).toList
       s!"started gs={",".intercalate (g.map toString)} driver={match d with | some x => toString x | none => "sink"} sink={b}"
+  | ["net.final", n, ins, src, b] =>
+    let inl := (if ins.isEmpty then [] else ins.splitOn ";").map fun p => if p == "-" then [] else parseNats p
+    NetRun.final n.toNat! inl (parseNats src) b.toNat!
   | ["run.sem"] => s!"skipSelf={runSem.skipSelf};driverRemovedFromArg={runSem.driverRemovedFromArg};singleProcKept={runSem.singleProcKept};driverReadyChecked={runSem.driverReadyChecked};sinkWaited={runSem.sinkWaited};readyBeforeStart={runSem.readyBeforeStart};mergesFile={runSem.mergesFile};mergesParam={runSem.mergesParam}"
   | ["chan.search", b, streams] =>
     let ss := (if streams.isEmpty then [] else streams.splitOn ";").map parseNats
